@@ -48,7 +48,9 @@ EXPLANATION = (
     "and the angle from s*dot(a,b)), frame() returns (x, cross(N,x), N) with x a non-vanishing normalised vector orthogonal "
     "to N, and orthogonal() is the Newton step (X + X^-T)/2 whose constant budget and "
     "early-exit threshold bring every singular value in [1/64, 64] within 1e-6 of 1 (interval iteration of s -> (s+1/s)/2). "
-    "The slerp weights are pinned at both end points (t = 0 and t = 1, both branches). "
+    "The slerp weights are pinned at both end points (t = 0 and t = 1, both branches). orthogonal() re-applies after its iteration "
+    "exactly the reflection it factored out before it (column-sign patterns on both paths), and no function of the transform headers "
+    "keeps mutable static state (results depend on the arguments only). "
     "Not decided: floating-point rounding beyond those clauses, the slerp weights for 0 < t < 1 (transcendental), "
     "the SIMD rcp/rsqrt approximations (C07).")
 
@@ -981,7 +983,278 @@ def check_orthogonal(ctx, tu):
             continue
         ctx.ok(R, inst, 'step (X + X^-T)/2; budget %d leaves |s-1| <= %.3g; early exit leaves |s-1| <= %.3g' % (trips, err_budget, err_break),
                tu.loc(loop))
+        check_orthogonal_mirror(ctx, tu, f, loop, mid, inst, key)
     ctx.floor(R, n, 2, 'LinearSpace2<vec2f>::orthogonal, LinearSpace2<vec2d>::orthogonal')
+
+
+# ---- the reflection that orthogonal() factors out before the iteration must be the one it puts back afterwards -----------------
+def _is_l2(ty):
+    t = (ty.get('desugaredQualType') or ty.get('qualType', '')).replace('const ', '').strip()
+    return bool(re.match(r'^(rkcommon::math::)?LinearSpace2(<|$)', t)) and not re.search(r'::(Scalar|Vector)$', t)
+
+
+class _Mirror:
+    """Evaluates the code around the Newton loop of orthogonal() over column-sign patterns: a matrix value is Base * diag(sx, sy) with
+    sx, sy in {+1, -1}; Base is *this before the loop and the loop's limit Q' (the polar factor of the matrix that entered the loop)
+    after it.  M = M' D  (D a reflection, D D = I)  implies  polar(M) = polar(M') D, so the pattern applied after the loop must equal the
+    one applied before it, on the mirrored path and on the other one."""
+
+    def __init__(self, tu, cval):
+        self.tu = tu
+        self.cval = cval          # truth value of the `det() < 0` test on this path
+        self.m = {}               # matrix variable -> (sx, sy)
+        self.sc = {}              # scalar variable -> sign
+        self.b = {}               # bool variable -> is the mirrored condition (True) / its negation (False)
+        self.saw_cond = False
+
+    def strip(self, e):
+        tu = self.tu
+        for _ in range(20):
+            e = tu.strip(e, casts=True)
+            if e is None:
+                return None
+            if e.get('kind') in ('CXXFunctionalCastExpr', 'CXXBindTemporaryExpr', 'MaterializeTemporaryExpr', 'ExprWithCleanups') and tu.kids(e):
+                e = tu.kids(e)[-1]
+                continue
+            if e.get('kind') in ('CXXConstructExpr', 'CXXTemporaryObjectExpr') and len([k for k in tu.kids(e) if k.get('kind') != 'CXXDefaultArgExpr']) == 1 \
+                    and not _is_l2(e.get('type', {})):
+                e = tu.kids(e)[0]
+                continue
+            if e.get('kind') == 'CXXMemberCallExpr' and re.search(r'::operator [a-z ]+$', tu.sd(e).get('q', '')):
+                obj = tu.call_parts(e)[1]           # `one.operator float()`: the named constant converted to the scalar type
+                if obj is not None:
+                    e = obj
+                    continue
+            return e
+        return e
+
+    def cond(self, e):
+        """True / False: value of a condition that is (the negation of) the mirrored test on this path; raises _NoForm otherwise"""
+        tu = self.tu
+        e = self.strip(e)
+        if e is None:
+            raise _NoForm('?')
+        k = e.get('kind')
+        if k == 'UnaryOperator' and e.get('opcode') == '!':
+            return not self.cond(tu.kids(e)[0])
+        if k == 'DeclRefExpr' and tu.ref_decl(e) in self.b:
+            self.saw_cond = True
+            return self.cval if self.b[tu.ref_decl(e)] else (not self.cval)
+        if k in ('BinaryOperator', 'CXXOperatorCallExpr') and (e.get('opcode') in ('<', '>', '<=', '>=') or
+                                                               tu.sd(e).get('q', '').split('::')[-1] in ('operator<', 'operator>')):
+            ks = tu.kids(e)[-2:]
+            op = e.get('opcode') or tu.sd(e).get('q', '').split('::')[-1][len('operator'):]
+            isdet = lambda x: any(y.get('kind') == 'CXXMemberCallExpr' and tu.sd(y).get('q', '').endswith('::det') for y in tu.walk(x))
+            iszero = lambda x: (_scalar_const(tu, self.strip(x)) == 0.0) or (self.strip(x) or {}).get('kind') == 'DeclRefExpr' and \
+                (self.strip(x).get('referencedDecl') or {}).get('name') == 'zero'
+            if isdet(ks[0]) and iszero(ks[1]):
+                neg = op in ('<', '<=')
+            elif isdet(ks[1]) and iszero(ks[0]):
+                neg = op in ('>', '>=')
+            else:
+                raise _NoForm('condition `%s`' % tu.show(e)[:60])
+            self.saw_cond = True
+            return self.cval if neg else (not self.cval)
+        raise _NoForm('condition `%s`' % tu.show(e)[:60])
+
+    def sign(self, e):
+        tu = self.tu
+        e = self.strip(e)
+        if e is None:
+            raise _NoForm('?')
+        k = e.get('kind')
+        if k == 'DeclRefExpr':
+            d = tu.ref_decl(e)
+            if d in self.sc:
+                return self.sc[d]
+            nm = (e.get('referencedDecl') or {}).get('name')
+            if nm == 'one':
+                return 1
+            raise _NoForm('scalar `%s`' % nm)
+        if k == 'UnaryOperator' and e.get('opcode') in ('-', '+'):
+            v = self.sign(tu.kids(e)[0])
+            return -v if e['opcode'] == '-' else v
+        if k == 'BinaryOperator' and e.get('opcode') == '*':
+            return self.sign(tu.kids(e)[0]) * self.sign(tu.kids(e)[1])
+        if k == 'ConditionalOperator':
+            c, a, b = tu.kids(e)[:3]
+            return self.sign(a if self.cond(c) else b)
+        v = _scalar_const(tu, e)
+        if v in (1.0, -1.0):
+            return int(v)
+        raise _NoForm('scalar `%s`' % tu.show(e)[:50])
+
+    def column(self, e):
+        """(matrix var, column index, sign) of a column-valued expression"""
+        tu = self.tu
+        e = self.strip(e)
+        if e is None:
+            raise _NoForm('?')
+        k = e.get('kind')
+        if k == 'MemberExpr' and e.get('name') in ('vx', 'vy'):
+            base = self.strip(tu.kids(e)[0]) if tu.kids(e) else None
+            i = 0 if e['name'] == 'vx' else 1
+            if base is None or base.get('kind') == 'CXXThisExpr' or (
+                    base.get('kind') == 'UnaryOperator' and base.get('opcode') == '*' and
+                    (self.strip(tu.kids(base)[0]) or {}).get('kind') == 'CXXThisExpr'):
+                return 'this', i, 1            # a column of *this
+            d = tu.ref_decl(base)
+            if d in self.m:
+                return d, i, self.m[d][i]
+        if k == 'CXXOperatorCallExpr':
+            q = tu.sd(e).get('q', '').split('::')[-1]
+            args = tu.kids(e)[1:]
+            if q == 'operator-' and len(args) == 1:
+                d, i, sg = self.column(args[0])
+                return d, i, -sg
+            if q == 'operator*' and len(args) == 2:
+                for a, b in ((args[0], args[1]), (args[1], args[0])):
+                    try:
+                        sg = self.sign(a)
+                    except _NoForm:
+                        continue
+                    d, i, s2 = self.column(b)
+                    return d, i, sg * s2
+        raise _NoForm('column `%s`' % tu.show(e)[:50])
+
+    def matrix(self, e):
+        tu = self.tu
+        e = self.strip(e)
+        if e is None:
+            raise _NoForm('?')
+        k = e.get('kind')
+        if k == 'DeclRefExpr' and tu.ref_decl(e) in self.m:
+            return self.m[tu.ref_decl(e)]
+        if k == 'UnaryOperator' and e.get('opcode') == '*' and (self.strip(tu.kids(e)[0]) or {}).get('kind') == 'CXXThisExpr':
+            return (1, 1)
+        if k == 'ConditionalOperator':
+            c, a, b = tu.kids(e)[:3]
+            return self.matrix(a if self.cond(c) else b)
+        if k in ('CXXConstructExpr', 'CXXTemporaryObjectExpr'):
+            args = [x for x in tu.kids(e) if x.get('kind') != 'CXXDefaultArgExpr']
+            if len(args) == 1:
+                return self.matrix(args[0])
+            if len(args) == 2:
+                cx, cy = self.column(args[0]), self.column(args[1])
+                if cx[0] == cy[0] and cx[1] == 0 and cy[1] == 1:
+                    return (cx[2], cy[2])
+                raise _NoForm('columns exchanged or taken from different matrices in `%s`' % tu.show(e)[:60])
+        if k == 'CXXOperatorCallExpr' and tu.sd(e).get('q', '').split('::')[-1] == 'operator*' and len(tu.kids(e)) == 3:
+            a, b = tu.kids(e)[1:]
+            b0 = self.strip(b)
+            if b0 is not None and b0.get('kind') == 'CallExpr' and tu.sd(b0).get('q', '').split('::')[-1] == 'scale':
+                v = self.strip(tu.call_parts(b0)[2][0])
+                if v is not None and v.get('kind') in ('CXXConstructExpr', 'CXXTemporaryObjectExpr'):
+                    comps = [x for x in tu.kids(v) if x.get('kind') != 'CXXDefaultArgExpr']
+                    if len(comps) == 2:
+                        ma = self.matrix(a)
+                        return (ma[0] * self.sign(comps[0]), ma[1] * self.sign(comps[1]))
+            raise _NoForm('product `%s` is not M * scale(Vector(+-1, +-1))' % tu.show(e)[:60])
+        raise _NoForm('matrix `%s`' % tu.show(e)[:50])
+
+    def stmt(self, st, mat_type):
+        tu = self.tu
+        st = tu.strip(st) if st.get('kind') in ('ExprWithCleanups',) else st
+        k = st.get('kind')
+        if k in ('NullStmt',):
+            return
+        if k == 'CompoundStmt':
+            for x in tu.kids(st):
+                self.stmt(x, mat_type)
+            return
+        if k == 'DeclStmt':
+            for v in tu.kids(st):
+                if v.get('kind') != 'VarDecl':
+                    raise _NoForm(tu.show(st)[:60])
+                qt = v.get('type', {}).get('qualType', '')
+                init = tu.kids(v)[-1] if tu.kids(v) else None
+                if _is_l2(v.get('type', {})):
+                    self.m[v['id']] = self.matrix(init) if init is not None else (1, 1)
+                elif qt.replace('const ', '') == 'bool':
+                    try:
+                        self.b[v['id']] = True if self.cond(init) == self.cval else False
+                    except _NoForm:
+                        pass          # some other flag (e.g. the loop's `converged`): not the mirrored test
+                else:
+                    self.sc[v['id']] = self.sign(init)
+            return
+        if k == 'IfStmt':
+            ks = tu.kids(st)
+            c = self.cond(ks[0])
+            if c:
+                self.stmt(ks[1], mat_type)
+            elif len(ks) > 2:
+                self.stmt(ks[2], mat_type)
+            return
+        if k == 'BinaryOperator' and st.get('opcode') == '=' and tu.ref_decl(tu.kids(st)[0]) in self.sc:
+            self.sc[tu.ref_decl(tu.kids(st)[0])] = self.sign(tu.kids(st)[1])
+            return
+        if k == 'CXXOperatorCallExpr' and tu.sd(st).get('q', '').endswith('operator=') and len(tu.kids(st)) == 3:
+            lhs = self.strip(tu.kids(st)[1])
+            if lhs is not None and lhs.get('kind') == 'DeclRefExpr' and tu.ref_decl(lhs) in self.m:
+                self.m[tu.ref_decl(lhs)] = self.matrix(tu.kids(st)[2])
+                return
+            if lhs is not None and lhs.get('kind') == 'MemberExpr' and lhs.get('name') in ('vx', 'vy'):
+                base = self.strip(tu.kids(lhs)[0])
+                d = tu.ref_decl(base) if base is not None else None
+                if d in self.m:
+                    d2, i2, sg = self.column(tu.kids(st)[2])
+                    i = 0 if lhs['name'] == 'vx' else 1
+                    if d2 != d or i2 != i:
+                        raise _NoForm('a column is overwritten with a different column in `%s`' % tu.show(st)[:60])
+                    cur = list(self.m[d])
+                    cur[i] = sg
+                    self.m[d] = tuple(cur)
+                    return
+        raise _NoForm('statement `%s`' % tu.show(st)[:60])
+
+
+def check_orthogonal_mirror(ctx, tu, f, loop, mid, inst, key):
+    """the statements of orthogonal() before and after its loop; reports through ctx"""
+    R = 'R-C06-orth'
+    body = tu.body(f)
+    seq = tu.kids(body)
+    idx = [i for i, x in enumerate(seq) if x is loop]
+    if not idx:
+        ctx.undecided(R, inst + ' mirror', 'the loop is not a top-level statement of the function body', tu.loc(loop))
+        return
+    mat_type = 'LinearSpace2'
+    results = {}
+    used_cond = False
+    for cval in (True, False):
+        ev = _Mirror(tu, cval)
+        try:
+            for st in seq[:idx[0]]:
+                ev.stmt(st, mat_type)
+            if mid not in ev.m:
+                raise _NoForm('the iterate is not initialised before the loop')
+            pre = ev.m[mid]
+            ev.m[mid] = (1, 1)
+            post = None
+            for st in seq[idx[0] + 1:]:
+                if st.get('kind') == 'ReturnStmt':
+                    post = ev.matrix(tu.kids(st)[0])
+                    break
+                ev.stmt(st, mat_type)
+            if post is None:
+                raise _NoForm('no return statement after the loop')
+        except _NoForm as e:
+            ctx.undecided(R, inst + ' mirror', 'code around the iteration is outside the column-sign forms: %s' % str(e)[:140], tu.fn_loc(f))
+            return
+        used_cond = used_cond or ev.saw_cond
+        results[cval] = (pre, post)
+    bad = [(c, pp) for c, pp in results.items() if pp[0] != pp[1]]
+    if bad:
+        c, (pre, post) = bad[0]
+        ctx.violation(R, inst + ' mirror', 'on the path where det() %s 0 the matrix that enters the iteration is *this * diag(%d, %d), but the result '
+                      'is put together as Q * diag(%d, %d): M = M\' D with a reflection D gives polar(M) = polar(M\') D, so the same D has to be '
+                      're-applied; with a different one the result is still orthonormal but is not the closest orthogonal matrix (for a '
+                      'mirrored input it comes out negated)' % ('<' if c else '>=', pre[0], pre[1], post[0], post[1]), tu.fn_loc(f),
+                      key=key + 'mirror-mismatch')
+    else:
+        ctx.ok(R, inst + ' mirror', 'column signs before / after the iteration agree: %s' % (
+            ', '.join('det %s 0: diag%s' % ('<' if c else '>=', pp[0]) for c, pp in sorted(results.items(), reverse=True)) if used_cond
+            else 'diag%s' % (results[True][0],)), tu.fn_loc(f))
 
 
 def _min_trips():
